@@ -13,7 +13,7 @@ from ..monitors import V
 from ..spaces import kinds_rotating, prog_of, shard_iter
 
 ID = "C19"
-BUDGET = {"quick": 100, "thorough": 600}
+BUDGET = {"quick": 240, "thorough": 600}
 X = -1  # the DAG argument x as a vertex
 
 
